@@ -73,7 +73,8 @@ type symCtx struct {
 	why          string
 	seen         map[string]types.Type // input paths read (discovery)
 	allocN       int
-	opaqueNonNil map[string]bool // callees treated as "returns some non-nil pointer"
+	copyHook     func(c *symCtx, dst, src sv, n int64) (handled, ok bool) // the builtin copy, before its default model
+	opaqueNonNil map[string]bool                                            // callees treated as "returns some non-nil pointer"
 	// hook intercepts a call before it is evaluated (static, closure or
 	// dynamically dispatched).  handled=false lets evaluation proceed.
 	hook func(c *symCtx, callee *ssa.Function, args []sv) (res []sv, handled bool, ok bool)
@@ -172,6 +173,29 @@ func zeroOf(t types.Type, path string) sv {
 		return sv{k: 'S', addr: path}
 	}
 	return sv{k: 'u'}
+}
+
+// zeroFill sets every cell of the aggregate at path to its zero value.
+func (c *symCtx) zeroFill(path string, t types.Type, depth int) {
+	if depth > 6 {
+		return
+	}
+	switch u := t.Underlying().(type) {
+	case *types.Struct:
+		c.mem[path] = sv{k: 'S', addr: path}
+		for i := 0; i < u.NumFields(); i++ {
+			c.zeroFill(fmt.Sprintf("%s.f%d", path, i), u.Field(i).Type(), depth+1)
+		}
+	case *types.Array:
+		c.mem[path] = sv{k: 'S', addr: path}
+		if u.Len() <= 64 {
+			for i := int64(0); i < u.Len(); i++ {
+				c.zeroFill(fmt.Sprintf("%s[%d]", path, i), u.Elem(), depth+1)
+			}
+		}
+	default:
+		c.mem[path] = zeroOf(t, path)
+	}
 }
 
 // allocation names are unique across contexts, so that memories of different
@@ -383,7 +407,11 @@ func (c *symCtx) evalPure(fn *ssa.Function, args []sv, free []sv, depth int) ([]
 					if v.k == 'S' && v.addr == "" {
 						v.addr = a.addr
 					}
-					v.src = a.addr
+					// a value parked in a local temporary (a composite literal handed on by value) keeps the
+					// provenance it had when it was stored there
+					if v.src == "" || !strings.HasPrefix(a.addr, "A:") {
+						v.src = a.addr
+					}
 					regs[x] = v
 				case token.NOT:
 					regs[x] = sv{k: 'b', b: !a.b}
@@ -581,6 +609,11 @@ func (c *symCtx) evalPure(fn *ssa.Function, args []sv, free []sv, depth int) ([]
 				v, ok2 := get(x.Val)
 				if !ok1 || !ok2 || a.k != 'p' || a.addr == "" {
 					return nil, c.fail("store through nil/unknown pointer at %s", c.p.Pos(ins.Pos()))
+				}
+				if v.k == 'S' && v.addr == "" {
+					// the zero value of an aggregate assigned as a whole (`*b = buffer{}`): every field cell becomes zero
+					c.zeroFill(a.addr, x.Val.Type(), 0)
+					continue
 				}
 				c.mem[a.addr] = v
 			case *ssa.Call:
@@ -884,6 +917,22 @@ func (c *symCtx) call(x *ssa.Call, get func(ssa.Value) (sv, bool), depth int) (s
 			n := args[0].i
 			if args[1].i < n {
 				n = args[1].i
+			}
+			if c.copyHook != nil {
+				if handled, ok := c.copyHook(c, args[0], args[1], n); handled {
+					if !ok {
+						return sv{}, false
+					}
+					return sv{k: 'i', i: n}, true
+				}
+			}
+			// elements that are known move with the copy (both slices with a backing)
+			if args[0].k == 's' && args[1].k == 's' && args[0].addr != "" && args[1].addr != "" && n <= 4096 {
+				for k := int64(0); k < n; k++ {
+					if cell, ok := c.mem[fmt.Sprintf("%s[%d]", args[1].addr, args[1].off+k)]; ok {
+						c.mem[fmt.Sprintf("%s[%d]", args[0].addr, args[0].off+k)] = cell
+					}
+				}
 			}
 			return sv{k: 'i', i: n}, true
 		}
